@@ -14,6 +14,7 @@ import (
 
 	"github.com/attestantio/dirk/rules"
 	"github.com/attestantio/dirk/services/checker"
+	"github.com/herumi/bls-eth-go-binary/bls"
 )
 
 // duty is one of two conflicting duties.
@@ -54,7 +55,10 @@ const (
 	routeBatch1Name = 2 // batch of one, by name
 	routeBatch2Key  = 3 // batch of two (with an unrelated plain account of the same instance), by public key
 	routeBatch2Last = 4 // batch of two by public key, the duty first and a companion entry that is refused last
-	routeStale      = 5 // not a duty at all: a batch of two whose entry for the account is an older attestation (source 0,
+	routeDecoy      = 6 // the duty's own data travels in the batch entry of an unrelated plain account; the entry for the
+	// account is a harmless later attestation that shares slot and committee index with it. The signature returned for
+	// the account counts as a release of the duty if it is a valid partial signature over the duty.
+	routeStale = 5 // not a duty at all: a batch of two whose entry for the account is an older attestation (source 0,
 	// target 1), which is refused once anything later has been signed; neither duty may become signable through it
 )
 
@@ -110,6 +114,38 @@ func signDuty(c *rig.Cluster, id uint64, account string, d duty, route int) []by
 	return sig
 }
 
+// signDecoy sends instance id a batch of two: the duty's data for a fresh plain account, and for the distributed account
+// an attestation with the duty's slot and committee index but another block root and a target ten epochs later. It
+// returns the signature the account's entry got if (and only if) that signature is a valid partial signature over the
+// duty itself.
+func signDecoy(c *rig.Cluster, id uint64, account string, d duty) []byte {
+	n := c.Nodes[id]
+	creds := &checker.Credentials{Client: rig.DefaultClient, RequestID: "s", IP: "10.0.0.1"}
+	_, acc, err := n.Rig.RealFetch.FetchAccount(n.Rig.Ctx, account)
+	if err != nil {
+		return nil
+	}
+	comp := n.Rig.AddSymAccount("Wallet 1", "", "pass", true)
+	real := AttData(d.e)
+	decoy := AttData(Ent{S: d.e.S, T: d.e.T + 10, Root: 7})
+	decoy.Slot, decoy.CommitteeIndex = real.Slot, real.CommitteeIndex
+	_, sigs := n.Rig.Signer.SignBeaconAttestations(n.Rig.Ctx, creds, []string{"", ""}, [][]byte{comp.PubBytes(), acc.PublicKey().Marshal()},
+		[]*rules.SignBeaconAttestationData{real, decoy})
+	if len(sigs) < 2 || len(sigs[1]) == 0 {
+		return nil
+	}
+	var sig bls.Sign
+	var pk bls.PublicKey
+	if sig.Deserialize(sigs[1]) != nil || pk.Deserialize(acc.PublicKey().Marshal()) != nil {
+		return nil
+	}
+	root := d.root()
+	if !sig.VerifyByte(&pk, append([]byte{}, root[:]...)) {
+		return nil
+	}
+	return sigs[1]
+}
+
 // signStale sends instance id a batch of two: an approved entry for a fresh plain account and, for the distributed
 // account, an attestation older than both duties of any pair with targets >= 2.
 func signStale(c *rig.Cluster, id uint64, account string) {
@@ -149,6 +185,10 @@ func c14RoutedSequences(prop bool) [][]int {
 	}
 	if !prop {
 		// An older attestation for the account, inside a batch, between (and before, and after) the two duties.
+		// The other duty smuggled as a decoy after the first was signed, in both directions, and in both orders.
+		for a := 0; a < 2; a++ {
+			res = append(res, []int{a, 2*routeDecoy + (1 - a)}, []int{2*routeDecoy + a, 1 - a}, []int{2*routeDecoy + a, 2*routeDecoy + (1 - a)})
+		}
 		stale := 2 * routeStale
 		for a := 0; a < 2; a++ {
 			for b := 0; b < 2; b++ {
@@ -195,6 +235,23 @@ func runAssignment(c *rig.Cluster, ids []uint64, t uint32, pair dutyPair, seqs [
 			if symRoute(d) == routeStale {
 				if !pair.a.prop && pair.a.e.T >= 2 && pair.b.e.T >= 2 {
 					signStale(c, id, account)
+				}
+				continue
+			}
+			if symRoute(d) == routeDecoy {
+				du := pair.a
+				if symDuty(d) == 1 {
+					du = pair.b
+				}
+				if du.prop {
+					continue
+				}
+				if sig := signDecoy(c, id, account, du); len(sig) > 0 {
+					if symDuty(d) == 0 {
+						sigsA[id], ra = sig, true
+					} else {
+						sigsB[id], rb = sig, true
+					}
 				}
 				continue
 			}
@@ -469,7 +526,7 @@ func C14(tier string) int {
 			for _, seq := range c14RoutedSequences(false) {
 				hasBatch2 := false
 				for _, sym := range seq {
-					if r := symRoute(sym); r == routeBatch2Key || r == routeBatch2Last || r == routeStale {
+					if r := symRoute(sym); r == routeBatch2Key || r == routeBatch2Last || r == routeStale || r == routeDecoy {
 						hasBatch2 = true
 					}
 				}
@@ -502,7 +559,7 @@ func C14(tier string) int {
 	run.Coverage = map[string]any{
 		"evaluations":                         cells + schedExecs,
 		"distinct_nontrivial":                 len(outcomes),
-		"rule":                                fmt.Sprintf("for every accepted (n,t) with n <= %d and every conflicting pair (double vote with same and with other source, surround, double proposal, and double votes / double proposal at the lowest legal values 0->0, 0->1, slot 0): every assignment of request sequences over the two duties to the instances (all 15 sequences of length <= 3 per instance for n <= %d, five representative sequences above), each on a freshly DKG-generated account on real instances; on a 2-of-2 account one instance additionally receives every sequence of length <= 2 over duty x route (single by name, single by share key, batch of one, batch of two after an approved companion, batch of two before a refused companion) and sequences with a refused older attestation for the account, sent inside a batch, before, between and after the duties; the sequences containing a batch of two also with GOMAXPROCS=1 so that one Scatter worker handles the whole batch; per assignment no instance may release partial signatures for both duties, and real threshold recovery over every t-subset must not succeed for both duties; plus both duties delivered concurrently to one instance under the cooperative scheduler (preemption bound %d); distinct = (n,t,pair,outcome vector) classes", maxN, fullN, bound),
+		"rule":                                fmt.Sprintf("for every accepted (n,t) with n <= %d and every conflicting pair (double vote with same and with other source, surround, double proposal, and double votes / double proposal at the lowest legal values 0->0, 0->1, slot 0): every assignment of request sequences over the two duties to the instances (all 15 sequences of length <= 3 per instance for n <= %d, five representative sequences above), each on a freshly DKG-generated account on real instances; on a 2-of-2 account one instance additionally receives every sequence of length <= 2 over duty x route (single by name, single by share key, batch of one, batch of two after an approved companion, batch of two before a refused companion) and sequences with a refused older attestation for the account, sent inside a batch, before, between and after the duties, and sequences in which a duty's data travels in another account's batch entry while the account's own entry shares slot and committee index with it; the sequences containing a batch of two also with GOMAXPROCS=1 so that one Scatter worker handles the whole batch; per assignment no instance may release partial signatures for both duties, and real threshold recovery over every t-subset must not succeed for both duties; plus both duties delivered concurrently to one instance under the cooperative scheduler (preemption bound %d); distinct = (n,t,pair,outcome vector) classes", maxN, fullN, bound),
 		"samples":                             samples.List(),
 		"routed_sequences_with_one_processor": oneProc,
 		"exhaustive":                          !capped,
